@@ -4,6 +4,9 @@ import json
 props = [json.loads(l) for l in open('/verif/properties.jsonl')]
 # id -> (technique, level text, level note, design ref)
 built = {
+ "C05": ("lock-step reference-model monitor: recording Debugger (public API) vs an independent transcription of the node's EvalScript/VerifyScript",
+         "Every program (node vectors, exhaustive opcode x edge-operand tuples in both eras, shift-count sweeps, all 2^9 non-signature flag subsets on a core set, structured random programs, vector mutants) is executed by the real interpreter and by the model; the verdict and the data/alt stacks after every instruction must agree. Held on the programs executed; the evidence lists per-opcode x era coverage and the number of steps compared.",
+         "Trusts /verif/internal/refscript (re-validated on every run against the node's script_tests.json: >1200 non-signature vectors reproduced). Error codes are not compared. Out of domain: CLEANSTACK without P2SH, P2SH-shaped outputs spent by non-push-only scripts after Genesis, elements > 4 MiB, signature opcodes (C06).", "DESIGN.md §3 C05, §7"),
  "C17": ("reference-model monitor (independent BIP276 codec) over exhaustive version x network enumeration and single-character corruptions",
          "Every one of the 65,025 version/network pairs x 2 prefixes x payload classes is encoded and decoded by the real code and compared with an independent codec; every single-character corruption of sampled encodings is fed to the decoder. Held on the executions observed; the version/network domain is enumerated completely, payloads and corrupted texts are sampled.",
          "Trusts the independent BIP276/SHA-256 reference in /verif/internal/refaddr; hex-case-only corruptions are not judged.", "DESIGN.md §3 C17"),
